@@ -201,12 +201,11 @@ example : GoodOrder id := fun vs => extractInterventions_ok vs
 /-- **Zero from line 5 is sound** (by C18's `cg_prob`): when `make_counterfactual_graph` reports 'inconsistent' the event has
 probability 0 in every functional SCM compatible with the graph (hypotheses as in `cg_prob`) -/
 theorem idstar_zero_line5_sound (M : Model) (ν : BaseValues) (hν : ν.Distinct) (hM : Compatible M G) (hG : G.WF)
-    (hdl : ∀ e ∈ G.di, e.1 ≠ e.2) (hbl : ∀ e ∈ G.bi, e.1 ≠ e.2) (ev : Event) (hev : EvOK ev) (topo : List Name)
-    (htopo : G.topologicalSort = .ok topo) (hpf : ∀ v, ∀ p ∈ M.pa v, Before topo v p)
+    (hdl : ∀ e ∈ G.di, e.1 ≠ e.2) (hbl : ∀ e ∈ G.bi, e.1 ≠ e.2) (ev : Event) (hev : EvOK ev)
     (hws : (ordf (extractInterventions ev.keys)).Nodup) (hwne : ∀ w ∈ ordf (extractInterventions ev.keys), w ≠ [])
     (hwcs : ∀ w ∈ ordf (extractInterventions ev.keys), ConsistentSubs w) (g : MG Var)
     (h : makeCounterfactualGraph ordf G ev = .ok (g, none)) : probEvent M ν ev = 0 :=
-  (cg_prob M ν hν G hM hG hdl hbl ordf ev hev topo htopo hpf hws hwne hwcs).2 g h
+  (cg_prob M ν hν G hM hG hdl hbl ordf ev hev hws hwne hwcs).2 g h
 
 /-! ## 4. non-vacuity: concrete runs of the model (kernel-evaluated) -/
 
